@@ -507,6 +507,21 @@ theorem genNonce_mem (b : NonceBound) (base : Str) (len : Nat) (vals : List Nat)
       have := nonceLoop_mem base (boundOf b base.length).toNat (by omega) (by omega) len vals x hx
       exact ⟨this, List.mem_of_mem_take this⟩
 
+/-- the characters the oracle prints for a `sample` line are exactly those some random source can produce -/
+theorem reachable_iff (b : NonceBound) (base : Str) (x : Char) (hpos : 0 < boundOf b base.length) :
+    x ∈ reachable b base ↔ ∃ v, genNonce b base 1 [v] = some [x] := by
+  constructor
+  · intro h
+    obtain ⟨i, hi, hx⟩ := List.mem_take_iff_getElem.1 h
+    have hb := boundOf_le b base.length
+    have him : i < (boundOf b base.length).toNat := by omega
+    have hil : i < base.length := by omega
+    have hn : ¬ (boundOf b base.length ≤ 0) := by omega
+    refine ⟨i, ?_⟩
+    simp [genNonce, hn, nonceLoop, Nat.mod_eq_of_lt him, List.getElem?_eq_getElem hil, hx]
+  · rintro ⟨v, hv⟩
+    exact (genNonce_mem b base 1 [v] [x] hv x (by simp)).1
+
 /-- **nonce_alphabet_surjective** (`nonceBound = len`): for every position of the alphabet there is a random source that makes
     `genNonceStr` return exactly that character -/
 theorem nonce_alphabet_surjective (base : Str) (i : Nat) (hi : i < base.length) :
